@@ -217,3 +217,10 @@ def tokens_words(toks, doubled):
         ws += dbl([code], dd())
     ws += text_words(run)
     return ws
+
+
+def pac_indent0(row, underline=False):
+    """wave 7: the INDENT form of the preamble address code with indent 0 (attribute 16 / 17: second byte 0x50 / 0x70
+    before parity) - white, column 0, like pac(row) but a different code word; the form pycaption's SCCWriter emits"""
+    hi, base = ROW_CODE[row]
+    return w2(hi, base + 0x10 + (1 if underline else 0))
